@@ -615,7 +615,8 @@ func (w *bWorld) clientStep(d *bDID) {
 		d.Upd, d.Rec = w.newKey(d), w.newKey(d)
 		pd := w.genPatches(true)
 		patches, _ := workload.ToPatches(pd)
-		origin := "origin-" + w.nextMark()
+		var origin interface{} = originValue(w.mark)
+		w.nextMark()
 		opaque := ""
 
 		if k.Draw(3, "client.opaque") == 0 {
@@ -631,7 +632,7 @@ func (w *bWorld) clientStep(d *bDID) {
 		}
 
 		m := &refmodel.Op{Type: refmodel.Create, Authentic: true, SuffixOK: true, Parses: true, NextUpdate: d.Upd.Commitment(hash), NextRecovery: d.Rec.Commitment(hash),
-			Patches: pd, Origin: origin, Label: "create"}
+			Patches: pd, Origin: jsonString(origin), Label: "create"}
 		op := w.newOp(d, operation.TypeCreate, req, m)
 		d.Create = op
 		w.parseBack(op, v, nil, nil, d.Upd, d.Rec, pd, origin, 0, 0)
@@ -707,8 +708,9 @@ func (w *bWorld) clientStep(d *bDID) {
 		spec.SignKey = d.Rec
 		nu, nr = w.newKey(d), w.newKey(d)
 		spec.NextUpdate, spec.NextRecovery = nu, nr
-		spec.AnchorOrigin = "origin-" + w.nextMark()
-		m.Origin = spec.AnchorOrigin.(string)
+		spec.AnchorOrigin = originValue(w.mark)
+		w.nextMark()
+		m.Origin = jsonString(spec.AnchorOrigin)
 		pd = w.genPatches(false)
 
 		if k.Draw(3, "client.opaque") == 0 {
@@ -741,7 +743,7 @@ func (w *bWorld) clientStep(d *bDID) {
 	}
 
 	op := w.newOp(d, typ, req, m)
-	w.parseBack(op, v, spec.SignKey, nil, nu, nr, pd, m.Origin, spec.From, spec.Until)
+	w.parseBack(op, v, spec.SignKey, nil, nu, nr, pd, spec.AnchorOrigin, spec.From, spec.Until)
 
 	if spec.From != 0 || spec.Until != 0 {
 		for _, vv := range w.versions {
@@ -919,6 +921,12 @@ func (w *bWorld) submit(op *bOp) {
 	}
 }
 
+func jsonString(v interface{}) string {
+	b, _ := json.Marshal(v)
+
+	return string(b)
+}
+
 func cloneModel(m *refmodel.Op) *refmodel.Op {
 	c := *m
 
@@ -960,7 +968,7 @@ func (w *bWorld) inUnpub(op *bOp) bool {
 }
 
 // parseBack (C11): the real parser returns exactly what the caller supplied to the client library.
-func (w *bWorld) parseBack(op *bOp, v *simenv.Version, signKey, _ *workload.Key, nu, nr *workload.Key, pd []workload.PatchDesc, origin string, from, until int64) {
+func (w *bWorld) parseBack(op *bOp, v *simenv.Version, signKey, _ *workload.Key, nu, nr *workload.Key, pd []workload.PatchDesc, origin interface{}, from, until int64) {
 	if w.prop != "C11" && w.prop != "C20" {
 		return
 	}
@@ -1007,7 +1015,7 @@ func (w *bWorld) parseBack(op *bOp, v *simenv.Version, signKey, _ *workload.Key,
 	case operation.TypeCreate:
 		if mop.SuffixData == nil || mop.SuffixData.RecoveryCommitment != nr.Commitment(hash) {
 			bad("recovery-commitment", mop.SuffixData, nr.Commitment(hash))
-		} else if !reflect.DeepEqual(mop.SuffixData.AnchorOrigin, interface{}(origin)) {
+		} else if jsonString(mop.SuffixData.AnchorOrigin) != jsonString(origin) {
 			bad("anchor-origin", mop.SuffixData.AnchorOrigin, origin)
 		}
 	case operation.TypeUpdate:
@@ -1030,7 +1038,7 @@ func (w *bWorld) parseBack(op *bOp, v *simenv.Version, signKey, _ *workload.Key,
 				bad("recovery-commitment", sd.RecoveryCommitment, nr.Commitment(hash))
 			}
 
-			if !reflect.DeepEqual(sd.AnchorOrigin, interface{}(origin)) {
+			if jsonString(sd.AnchorOrigin) != jsonString(origin) {
 				bad("anchor-origin", sd.AnchorOrigin, origin)
 			}
 		}
